@@ -64,7 +64,7 @@ fn level_obs(toks: &[&str]) -> String {
 fn observe_line(line: &str) -> String {
     let toks: Vec<&str> = line.split(' ').collect();
     match toks[0] {
-        "T" | "Tb" => {
+        "T" | "Tb" | "Tf" => {
             let c = parse_tree_case(&toks);
             dispatch_width!(c.w, observe_tree_w, &c)
         }
@@ -115,7 +115,7 @@ fn compare(kind: &str, a: &str, b: &str) -> Vec<&'static str> {
         return vec![];
     }
     match kind {
-        "T" | "Tb" => compare_tree_lines(a, b).into_iter().collect(),
+        "T" | "Tb" | "Tf" => compare_tree_lines(a, b).into_iter().collect(),
         "P" => {
             let mut out = vec![];
             if a == "PANIC" || b == "PANIC" {
@@ -153,7 +153,7 @@ fn compare(kind: &str, a: &str, b: &str) -> Vec<&'static str> {
 
 fn nontrivial(kind: &str, case: &str, obs: &str) -> bool {
     match kind {
-        "T" | "Tb" => {
+        "T" | "Tb" | "Tf" => {
             let last = obs.split('#').next().unwrap_or("").rsplit(';').next().unwrap_or("");
             last.matches(" I").count() + last.matches("=I").count() >= 2
         }
@@ -208,7 +208,7 @@ fn cmd_cmp(cases: &str, model: &str) {
         }
         // distribution
         match kind.as_str() {
-            "T" | "Tb" => {
+            "T" | "Tb" | "Tf" => {
                 let last = a.split('#').next().unwrap_or("").rsplit(';').next().unwrap_or("");
                 let d = last.split('|').find(|f| f.starts_with("D=")).or_else(|| last.split('|').nth(1)).unwrap_or("");
                 let (pages, depth, highs, nodes) = dump_stats(d.trim_start_matches("D="));
@@ -285,7 +285,7 @@ fn cmd_oracle(cases: &str) {
         let toks: Vec<&str> = line.split(' ').collect();
         *by_kind.entry(toks[0].to_string()).or_default() += 1;
         let v: oracle::Viol = match toks[0] {
-            "T" | "Tb" => {
+            "T" | "Tb" | "Tf" => {
                 let c = parse_tree_case(&toks);
                 dispatch_width!(c.w, oracle_tree_w, &c)
             }
